@@ -6,6 +6,7 @@ import (
 	"fmt"
 	"math"
 
+	cp "gitlab.com/gomidi/midi/v2/internal/verifh/concpairs"
 	"gitlab.com/gomidi/midi/v2/internal/verifh/engine"
 	"gitlab.com/gomidi/midi/v2/internal/verifh/refsmf"
 	"gitlab.com/gomidi/midi/v2/smf"
@@ -380,6 +381,9 @@ func main() {
 	ctx = engine.Start("C15", "exploration")
 	if ctx.ReplayPath != "" {
 		m := ctx.LoadReplay()
+		if cp.Replay(ctx, m, "meta", concCases()) {
+			ctx.Finish("replay")
+		}
 		fmt.Println("meta case:", m["constructor"], m["args"], "-", m["what"], "(pure function of its arguments; re-run ./run C15 quick)")
 		return
 	}
@@ -387,8 +391,9 @@ func main() {
 	ctx.Jobs("texts", 16, func(j int) { texts(j, 16) })
 	ctx.Jobs("numeric", 1, func(int) { numeric(); reuse() })
 	ctx.Jobs("timesig", 16, func(j int) { timeSigs(j, 16) })
-	ctx.Jobs("keys", 1, func(int) { keys() })
+	ctx.Jobs("keys", 1, func(int) { keys(); nilMasks() })
 	ctx.Jobs("tempo", 16, func(j int) { tempos(j, 16) })
+	ctx.Jobs("concurrent", 1, func(int) { cp.Litmus(ctx); cp.Check(ctx, "meta", concCases()) })
 	ctx.Sample(map[string]interface{}{"constructor": "MetaSequencerData(200 bytes)", "expect": "FF 7F 81 48 + data; GetMetaSeqData returns the 200 bytes"})
 	ctx.Sample(map[string]interface{}{"constructor": "MetaTempo(6e7/500001)", "expect": "payload 07 A1 21 (+-1)"})
 	ctx.Guard(ctx.Evals.Load() > 16_000_000, "tempo sweep incomplete")
